@@ -276,6 +276,17 @@ class NpProxy:
         return _objarray([start + step * k for k in range(n)])
 
     @staticmethod
+    def digitize(x, bins, right=False):
+        if any_sym(x) or any_sym(bins):
+            # for monotonically increasing bins np.digitize(x, bins, right) == searchsorted(bins, x, 'left' if right else 'right')
+            b = _np.asarray(bins, dtype=object)
+            for i in range(len(b) - 1):
+                if not bool(_lt(b[i], b[i + 1]) | (b[i] == b[i + 1])):
+                    raise ValueError("bins must be monotonically increasing or decreasing")
+            return _np.searchsorted(b, _np.asarray(x, dtype=object), side="left" if right else "right")
+        return _np.digitize(x, bins, right=right)
+
+    @staticmethod
     def searchsorted(a, v, side="left", **kw):
         return _np.searchsorted(a, v, side=side, **kw)
 
